@@ -323,6 +323,9 @@ def gen_world(rnd, valid_only=None):
         mods_good.append("alpha")
         if rnd.random() < 0.5:
             add_file("%s/alpha/src/extra.capy" % MODS)
+            if rnd.random() < 0.5:
+                # a file of the module that is not under its src/: same name, other file
+                add_file("%s/alpha/extra.capy" % MODS)
     if rnd.random() < 0.4:
         add_file("%s/Beta2/src/mod.capy" % MODS)
         mods_good.append("Beta2")
